@@ -1777,3 +1777,304 @@ Proof.
     exists o2, [], []. rewrite (echo_of_buf s (upd_pending s2 None)) by exact Ub.
     rewrite app_nil_r. auto.
 Qed.
+
+
+(* ---------- shapes without preconditions, for the trace property of unsolicited retries -------------------------------- *)
+
+Definition nrt (ob : oobs) : bool :=
+  match ob with OInfo (IUnsolTimeout _ true) => false | _ => true end.
+
+Lemma req_nrt ob : req_obs ob = true -> nrt ob = true.
+Proof. destruct ob as [| | |i| | | |]; cbn; auto. destruct i; auto; discriminate. Qed.
+Lemma ustart_nrt ob : ustart ob = true -> nrt ob = true.
+Proof. destruct ob as [| | |i| | | |]; cbn; auto. destruct i; auto; discriminate. Qed.
+Lemma rd_nrt ob : rd_obs ob = true -> nrt ob = true.
+Proof. destruct ob as [| | |i| | | |]; cbn; auto. destruct i; auto; discriminate. Qed.
+Lemma dbq_nrt ob : dbq ob = true -> nrt ob = true.
+Proof. destruct ob; cbn; auto; discriminate. Qed.
+
+Lemma finish_fn_shape cfg from seq bytes o0 s1 resp se repeat o1 s2 o :
+  finish_fn cfg from seq bytes o0 s1 resp se repeat o1 = (s2, o) ->
+  forallb req_obs o0 = true -> forallb req_obs o1 = true -> forallb req_obs o = true.
+Proof.
+  unfold finish_fn. intros H S0 S1. destruct resp as [r|]; [|inv_pair H; fb].
+  destruct repeat.
+  - cbv zeta in H. unfold repeat_solicited in H.
+    destruct (confirm_series se r); inv_pair H; fb.
+  - destruct (write_solicited s1 from r) as [[s3 r'] o2] eqn:Ew.
+    apply write_solicited_spec in Ew as [_ [_ [_ [_ [o' [-> S']]]]]].
+    apply (forallb_imp _ _ _ dbq_req) in S'. cbv zeta in H.
+    destruct (confirm_series se r'); inv_pair H; fb.
+Qed.
+
+Lemma handle_from_idle_shape cfg s from bc bytes d fid s1 o :
+  handle_from_idle cfg s from bc bytes d fid = (s1, o) -> forallb req_obs o = true.
+Proof.
+  rewrite handle_from_idle_unfold. intros H.
+  destruct (to_treq cfg from d) as [|q|ctl fn obj].
+  - inv_pair H. reflexivity.
+  - apply write_error_response_spec in H as [_ [S _]]. exact S.
+  - cbv zeta in H.
+    assert (S0 : forallb req_obs [OInfo (IIdleRequest fn (ctl_seq ctl))] = true) by reflexivity.
+    destruct (classify s bc bytes ctl fn obj) as [iin2|hdrs rh|resp hdrs rh|hdrs|resp|m|q|q].
+    + eapply finish_fn_shape; eauto.
+    + destruct (format_first_read_response s (ctl_seq ctl)) as [[[s2 r] se] o1] eqn:Ef.
+      apply format_first_read_response_spec in Ef as [_ [S _]].
+      eapply finish_fn_shape; eauto. apply (forallb_imp _ _ _ dbq_req S).
+    + destruct (format_first_read_response s (ctl_seq ctl)) as [[[s2 r] se] o1] eqn:Ef.
+      apply format_first_read_response_spec in Ef as [_ [S _]].
+      eapply finish_fn_shape; eauto. apply (forallb_imp _ _ _ dbq_req S).
+    + destruct (handle_non_read cfg s fn (ctl_seq ctl) fid bytes hdrs) as [[s2 r] o1] eqn:Ef.
+      apply handle_non_read_spec in Ef as [_ S].
+      eapply finish_fn_shape; eauto. apply (forallb_imp _ _ _ exec_req S).
+    + eapply finish_fn_shape; eauto.
+    + destruct (process_broadcast cfg s m fid ctl fn bytes obj) as [s2 o1] eqn:Ef.
+      apply process_broadcast_spec in Ef as [_ S]. inv_pair H. fb.
+    + inv_pair H. reflexivity.
+    + inv_pair H. reflexivity.
+Qed.
+
+Lemma unsol_wait_fragment_shape cfg s resp from bc bytes d fid s1 res o :
+  unsol_wait_fragment cfg s resp from bc bytes d fid = (s1, res, o) -> forallb req_obs o = true.
+Proof.
+  unfold unsol_wait_fragment. intros H.
+  destruct (to_treq cfg from d) as [|q|ctl fn obj].
+  - inv_pair H. reflexivity.
+  - destruct (write_error_response (upd_deferred s None) from bc q) as [s2 o2] eqn:Ew.
+    apply write_error_response_spec in Ew as [_ [S _]]. inv_pair H. exact S.
+  - destruct (classify s bc bytes ctl fn obj) as [iin2|hdrs rh|resp0 hdrs rh|hdrs|resp0|m|q|q].
+    + destruct (write_solicited (upd_deferred s None) from (empty_solicited (ctl_seq ctl) iin2)) as [[s2 r2] o2] eqn:Ew.
+      apply write_solicited_spec in Ew as [_ [_ [_ [_ [o' [-> S]]]]]]. inv_pair H.
+      apply (forallb_imp _ _ _ dbq_req) in S. fb.
+    + inv_pair H. reflexivity.
+    + inv_pair H. reflexivity.
+    + destruct (handle_non_read cfg (upd_deferred s None) fn (ctl_seq ctl) fid bytes hdrs) as [[s2 r] o1] eqn:Eh.
+      apply handle_non_read_spec in Eh as [_ S1]. apply (forallb_imp _ _ _ exec_req) in S1.
+      destruct r as [r0|].
+      * destruct (write_solicited s2 from r0) as [[s3 r1] o2] eqn:Ew.
+        apply write_solicited_spec in Ew as [_ [_ [_ [_ [o' [-> S]]]]]]. inv_pair H.
+        apply (forallb_imp _ _ _ dbq_req) in S. fb.
+      * inv_pair H. fb.
+    + inv_pair H. destruct resp0; reflexivity.
+    + destruct (process_broadcast cfg (upd_deferred s None) m fid ctl fn bytes obj) as [s2 o2] eqn:Ep.
+      apply process_broadcast_spec in Ep as [_ S]. inv_pair H. exact S.
+    + inv_pair H. reflexivity.
+    + destruct (q =? ctl_seq (r_ctl resp)); inv_pair H; reflexivity.
+Qed.
+
+Lemma idle_run_nrt cfg : forall f st s s' o,
+  idle_run f cfg st s = (s', o) -> forallb nrt o = true.
+Proof.
+  induction f as [|f IH]; intros st s s' o H.
+  { cbn [idle_run] in H. inv_pair H. reflexivity. }
+  rewrite idle_run_S in H. destruct st as [| |ns|ns].
+  - match type of H with (let '(_, _) := ?x in _) = _ => destruct x as [s1 o1] eqn:E1 end.
+    assert (S1 : forallb nrt o1 = true).
+    { destruct (s_pending s) as [[[[[from bc] bytes] d] fid]|].
+      - apply handle_from_idle_shape in E1. apply (forallb_imp _ _ _ req_nrt E1).
+      - inv_pair E1. reflexivity. }
+    destruct (s_control s1); [|inv_pair H; exact S1..].
+    destruct (idle_run f cfg St2 s1) as [s2 o2] eqn:E2. inv_pair H. apply IH in E2. fb.
+  - destruct (check_unsolicited cfg s) as [[s2 ns2] o2] eqn:Eu.
+    apply check_unsolicited_pending in Eu as [_ Us]. apply (forallb_imp _ _ _ ustart_nrt) in Us.
+    destruct (s_control s2) as [|se dl rs|resp n rt dl].
+    + destruct (idle_run f cfg (St3 false) s2) as [s3 o3] eqn:E3. inv_pair H. apply IH in E3. fb.
+    + inv_pair H. exact Us.
+    + destruct (s_pending s2) as [[[[[from bc] bytes] d] fid]|]; [|inv_pair H; exact Us].
+      destruct (unsol_wait_fragment cfg (upd_pending s2 None) resp from bc bytes d fid) as [[s3 res] o3] eqn:Ew.
+      apply unsol_wait_fragment_shape in Ew. apply (forallb_imp _ _ _ req_nrt) in Ew.
+      destruct res as [r|]; [|inv_pair H; fb].
+      destruct (end_unsol cfg s3 n r) as [[s4 ns4] o4] eqn:Ee.
+      apply end_unsol_spec in Ee as [_ Se]. apply (forallb_imp _ _ _ dbq_nrt) in Se.
+      destruct (idle_run f cfg (St3 ns4) s4) as [s5 o5] eqn:E5. inv_pair H. apply IH in E5. fb.
+  - destruct (handle_deferred cfg s ns) as [s3 o3] eqn:Ed.
+    apply handle_deferred_shape in Ed as [_ D]. apply (forallb_imp _ _ _ rd_nrt) in D.
+    destruct (s_control s3); [|inv_pair H; exact D..].
+    destruct (idle_run f cfg (St4 ns) s3) as [s4 o4] eqn:E4. inv_pair H. apply IH in E4. fb.
+  - destruct (s_pending s); [eapply IH; eauto|].
+    destruct ns; [eapply IH; eauto|].
+    destruct (s_notify s); [eapply IH; eauto|]. inv_pair H. reflexivity.
+Qed.
+
+
+(* ---------- the trace property: every retry mark is followed by the fragment that opened the wait ------------------------ *)
+
+Definition retries_identical (h : list oobs) : Prop :=
+  forall h1 q rest, h = h1 ++ OInfo (IUnsolTimeout q true) :: rest ->
+    exists dest b h2, rest = OTx dest b :: h2 /\ opened_by h1 dest b q.
+
+Lemma retries_identical_nil : retries_identical [].
+Proof. intros h1 q rest H. destruct h1; discriminate. Qed.
+
+Lemma nrt_not_in o q : forallb nrt o = true -> ~ In (OInfo (IUnsolTimeout q true)) o.
+Proof.
+  intros H Hin. rewrite forallb_forall in H. specialize (H _ Hin). discriminate.
+Qed.
+
+Lemma retries_identical_app_nrt h o :
+  retries_identical h -> forallb nrt o = true -> retries_identical (h ++ o).
+Proof.
+  intros R So h1 q rest H. apply app_eq_app in H as [l [[H1 H2]|[H1 H2]]].
+  - destruct l as [|x l].
+    + exfalso. apply (nrt_not_in o q So). cbn [app] in H2. rewrite <- H2. left. reflexivity.
+    + cbn [app] in H2. inversion H2; subst x rest. rewrite H1 in R.
+      destruct (R h1 q l eq_refl) as [dest [b [h2 [-> Hop]]]].
+      exists dest, b, (h2 ++ o). split; [reflexivity | exact Hop].
+  - exfalso. apply (nrt_not_in o q So). rewrite H2. apply in_or_app. right. left. reflexivity.
+Qed.
+
+Lemma retries_identical_app_retry h dest b q :
+  retries_identical h -> opened_by h dest b q ->
+  retries_identical (h ++ [OInfo (IUnsolTimeout q true); OTx dest b]).
+Proof.
+  intros R Hop h1 q' rest H. apply app_eq_app in H as [l [[H1 H2]|[H1 H2]]].
+  - destruct l as [|x l].
+    + cbn [app] in H2. inversion H2; subst q' rest. rewrite app_nil_r in H1. subst h1. eauto.
+    + cbn [app] in H2. inversion H2; subst x rest. rewrite H1 in R.
+      destruct (R h1 q' l eq_refl) as [dest' [b' [h2 [-> Hop']]]].
+      exists dest', b', (h2 ++ [OInfo (IUnsolTimeout q true); OTx dest b]). split; [reflexivity | exact Hop'].
+  - destruct l as [|x [|y [|z l]]]; cbn [app] in H2.
+    + inversion H2; subst q' rest. rewrite app_nil_r in H1. subst h1. eauto.
+    + inversion H2.
+    + inversion H2.
+    + inversion H2.
+Qed.
+
+Ltac fbn :=
+  repeat (progress (repeat rewrite forallb_app; cbn [forallb app nrt andb]));
+  repeat match goal with H : forallb nrt ?o = true |- context [forallb nrt ?o] => rewrite H end;
+  reflexivity.
+
+Lemma sol_wait_fragment_nrt cfg s se dl from bc bytes d out o :
+  sol_wait_fragment cfg s se dl from bc bytes d = (out, o) -> forallb nrt o = true.
+Proof.
+  unfold sol_wait_fragment. intros H.
+  destruct (to_treq cfg from d) as [|q|ctl fn obj]; try (inv_pair H; reflexivity).
+  destruct (classify s bc bytes ctl fn obj) as [iin2|hdrs rh|resp hdrs rh|hdrs|resp|m|q|q];
+    try (inv_pair H; reflexivity).
+  - inv_pair H. destruct resp; reflexivity.
+  - destruct (q =? se_ecsn se); inv_pair H; reflexivity.
+Qed.
+
+Lemma resume_at_nrt cfg st s s' o : resume_at cfg st s = (s', o) -> forallb nrt o = true.
+Proof. unfold resume_at. apply idle_run_nrt. Qed.
+
+Lemma on_rx_nrt cfg s from bc bytes d s' o :
+  on_rx cfg s from bc bytes d = (s', o) -> forallb nrt o = true.
+Proof.
+  unfold on_rx. cbv zeta. intros H.
+  match type of H with (match ?c with _ => _ end) = _ => destruct c as [|se dl r|resp is_null retries dl] end.
+  - rewrite idle_loop_8_eq in H. eapply resume_at_nrt; eauto.
+  - match type of H with context [sol_wait_fragment ?a ?b ?c ?d ?e ?f ?g ?i] =>
+      destruct (sol_wait_fragment a b c d e f g i) as [out o1] eqn:Ew end.
+    apply sol_wait_fragment_nrt in Ew.
+    destruct out as [dl'|rt|].
+    + inv_pair H. exact Ew.
+    + destruct (se_fin se).
+      * match type of H with context [resume_at cfg ?st ?sx] => destruct (resume_at cfg st sx) as [s2 o2] eqn:E end.
+        inv_pair H. apply resume_at_nrt in E. fbn.
+      * match type of H with context [format_read_response ?a ?b ?c ?d] =>
+          destruct (format_read_response a b c d) as [[[s2 rsp] next] o2] eqn:Ef end.
+        destruct (write_solicited s2 rt rsp) as [[s3 rsp'] o3] eqn:Es.
+        apply format_read_response_spec in Ef as [_ [Sf _]]. apply (forallb_imp _ _ _ dbq_nrt) in Sf.
+        apply write_solicited_spec in Es as [_ [_ [_ [_ [o' [-> Ss]]]]]]. apply (forallb_imp _ _ _ dbq_nrt) in Ss.
+        destruct next as [n|].
+        -- inv_pair H. fbn.
+        -- match type of H with context [resume_at cfg ?st ?sx] => destruct (resume_at cfg st sx) as [s5 o5] eqn:E end.
+           inv_pair H. apply resume_at_nrt in E. fbn.
+    + match type of H with context [resume_at cfg ?st ?sx] => destruct (resume_at cfg st sx) as [s2 o2] eqn:E end.
+      inv_pair H. apply resume_at_nrt in E. fbn.
+  - match type of H with context [unsol_wait_fragment ?a ?b ?c ?d ?e ?f ?g ?i] =>
+      destruct (unsol_wait_fragment a b c d e f g i) as [[s1 res] o1] eqn:Ew end.
+    apply unsol_wait_fragment_shape in Ew. apply (forallb_imp _ _ _ req_nrt) in Ew.
+    destruct res as [r|]; [|inv_pair H; exact Ew].
+    destruct (end_unsol cfg s1 is_null r) as [[s2 ns] o2] eqn:Ee.
+    apply end_unsol_spec in Ee as [_ Se]. apply (forallb_imp _ _ _ dbq_nrt) in Se.
+    destruct (resume_at cfg (St3 ns) s2) as [s3 o3] eqn:E. inv_pair H. apply resume_at_nrt in E. fbn.
+Qed.
+
+Lemma fire_deadline_retries cfg h s s' o :
+  fire_deadline cfg s = (s', o) -> inv cfg h s -> retries_identical h -> retries_identical (h ++ o).
+Proof.
+  unfold fire_deadline. intros H Hinv R.
+  destruct (s_control s) as [|se dl r|resp is_null retries dl] eqn:Ec.
+  - apply resume_at_nrt in H. apply retries_identical_app_nrt; assumption.
+  - destruct (resume_at cfg (stage_of r) (upd_control s CIdle)) as [s1 o1] eqn:E. inv_pair H.
+    apply resume_at_nrt in E. apply retries_identical_app_nrt; [assumption|]. cbn [app forallb nrt andb]. exact E.
+  - match type of H with (if ?c then _ else _) = _ => destruct c end.
+    + inv_pair H. unfold repeat_unsolicited. cbn [app].
+      apply retries_identical_app_retry; [assumption|].
+      destruct Hinv as [[_ [B _]] _]. destruct (B _ _ _ _ Ec) as [B1 _]. exact B1.
+    + destruct (end_unsol cfg s is_null UrTimeout) as [[s1 ns] o1] eqn:Ee.
+      apply end_unsol_spec in Ee as [_ Se]. apply (forallb_imp _ _ _ dbq_nrt) in Se.
+      destruct (resume_at cfg (St3 ns) s1) as [s2 o2] eqn:E. inv_pair H. apply resume_at_nrt in E.
+      apply retries_identical_app_nrt; [assumption|]. cbn [app forallb nrt andb]. fb.
+Qed.
+
+Lemma advance_retries cfg : forall f s target h s' o,
+  advance f cfg s target = (s', o) -> inv cfg h s -> retries_identical h -> retries_identical (h ++ o).
+Proof.
+  induction f as [|f IH]; intros s target h s' o H Hinv R; cbn [advance] in H.
+  { inv_pair H. apply retries_identical_app_nrt; [assumption | reflexivity]. }
+  destruct (next_deadline cfg s) as [d|]; [|inv_pair H; rewrite app_nil_r; exact R].
+  destruct (d <=? target)%Z; [|inv_pair H; rewrite app_nil_r; exact R].
+  destruct (fire_deadline cfg (upd_now s (Z.max d (s_now s)))) as [s1 o1] eqn:Ef.
+  destruct (advance f cfg s1 target) as [s2 o2] eqn:Ea. inv_pair H.
+  assert (Hinv1 : inv cfg (h ++ [OAt (Z.max d (s_now s))]) (upd_now s (Z.max d (s_now s)))).
+  { apply inv_upd_now. apply inv_app_quiet; [reflexivity | exact Hinv]. }
+  assert (R1 : retries_identical (h ++ [OAt (Z.max d (s_now s))])).
+  { apply retries_identical_app_nrt; [assumption | reflexivity]. }
+  pose proof (fire_deadline_pres _ _ _ _ _ Ef Hinv1) as Hinv2.
+  pose proof (fire_deadline_retries _ _ _ _ _ Ef Hinv1 R1) as R2.
+  pose proof (IH _ _ _ _ _ Ea Hinv2 R2) as R3.
+  rewrite <- !app_assoc in R3. exact R3.
+Qed.
+
+Lemma ostep_retries cfg h s ev ans s' o :
+  ostep cfg s ev ans = (s', o) -> inv cfg h s -> retries_identical h -> retries_identical (h ++ o).
+Proof.
+  unfold ostep. intros H Hinv R.
+  assert (Hinv0 : inv cfg h (upd_answers s ans)) by (apply inv_same with (s := s); [frame_tac | exact Hinv]).
+  set (s0 := upd_answers s ans) in *. clearbody s0. clear Hinv.
+  destruct ev as [from bc bytes d|ms| |sel op|v|].
+  - destruct (on_rx cfg s0 from bc bytes d) as [s1 o1] eqn:E1.
+    destruct (advance 64 cfg s1 (s_now s1 + settle_ms)) as [s2 o2] eqn:E2. inv_pair H.
+    pose proof (on_rx_pres _ _ _ _ _ _ _ _ _ E1 Hinv0) as Hinv1.
+    apply on_rx_nrt in E1. rewrite app_assoc.
+    eapply advance_retries; eauto. apply retries_identical_app_nrt; assumption.
+  - destruct (advance 4096 cfg s0 (s_now s0 + ms)) as [s2 o2] eqn:E2. inv_pair H.
+    eapply advance_retries; eauto.
+  - destruct (s_control s0) as [|se dl r|resp is_null retries dl] eqn:Ec.
+    + destruct (idle_loop 8 cfg s0) as [s1 o1] eqn:El.
+      destruct (advance 64 cfg s1 (s_now s1 + settle_ms)) as [s2 o2] eqn:Ea. inv_pair H.
+      assert (Hinv1 : inv cfg (h ++ o1) s1).
+      { pose proof Hinv0 as [[A _] Hr].
+        apply (idle_loop_pres cfg h s0 s1 o1 []) in El; auto.
+        - apply rest_ok_deferred_none; [exact Hr|]. intros ? ? ? ? X. rewrite Ec in X. discriminate.
+        - rewrite app_nil_r. exact A. }
+      rewrite idle_loop_8_eq in El. apply resume_at_nrt in El. rewrite app_assoc.
+      eapply advance_retries; eauto. apply retries_identical_app_nrt; assumption.
+    + destruct (advance 64 cfg (upd_notify s0 true) (s_now (upd_notify s0 true) + settle_ms)) as [s2 o2] eqn:Ea.
+      inv_pair H. eapply advance_retries; eauto;
+        apply inv_same' with (s := s0); try reflexivity; exact Hinv0.
+    + destruct (advance 64 cfg (upd_notify s0 true) (s_now (upd_notify s0 true) + settle_ms)) as [s2 o2] eqn:Ea.
+      inv_pair H. eapply advance_retries; eauto;
+        apply inv_same' with (s := s0); try reflexivity; exact Hinv0.
+  - inv_pair H. rewrite app_nil_r. exact R.
+  - inv_pair H. rewrite app_nil_r. exact R.
+  - destruct (idle_loop 8 cfg (upd_pending (upd_control (session_reset s0) CIdle) None)) as [s2 o2] eqn:El.
+    destruct (advance 64 cfg s2 (s_now s2 + settle_ms)) as [s3 o3] eqn:Ea. inv_pair H.
+    assert (Hinv1 : inv cfg (h ++ [ODb DbReset; OSessionEnd] ++ o2) s2).
+    { apply (idle_loop_pres cfg h _ s2 o2 [ODb DbReset; OSessionEnd]) in El; auto.
+      intros l r X. psimpl_in X. discriminate. }
+    rewrite idle_loop_8_eq in El. apply resume_at_nrt in El.
+    change (ODb DbReset :: OSessionEnd :: o2 ++ o3) with (([ODb DbReset; OSessionEnd] ++ o2) ++ o3).
+    rewrite app_assoc. eapply advance_retries; eauto.
+    apply retries_identical_app_nrt; [assumption|]. cbn [app forallb nrt andb]. exact El.
+Qed.
+
+Lemma ostart_retries cfg sel op iin a s o : ostart cfg sel op iin a = (s, o) -> retries_identical o.
+Proof.
+  unfold ostart. rewrite idle_loop_8_eq. intros H. apply resume_at_nrt in H.
+  apply (retries_identical_app_nrt [] o retries_identical_nil H).
+Qed.
